@@ -249,6 +249,14 @@ def call_name(I, n, name, args, kwargs):
             q_, r_ = divmod(args[0].v, args[1].v)
             return Tup([Lit(q_), Lit(r_)])
         return Tup([Other('int'), Other('int')])
+    if name == 'next' and args and isinstance(args[0], (Gen, ListV, Tup)):
+        # first element a generator expression yields on this path (its filters were decided as path choices)
+        vals = list(args[0].values) if isinstance(args[0], Gen) else list(args[0])
+        if vals:
+            return vals[0]
+        if len(args) > 1:
+            return args[1]
+        raise Raised('StopIteration', n.lineno)
     if name in ('type', 'print', 'id', 'hash', 'repr', 'filter', 'next', 'iter', 'chr', 'ord'):
         return Other(name)
     if name in ('ValueError', 'TypeError', 'RuntimeError', 'Exception', 'KeyError'):
